@@ -77,6 +77,20 @@ func checkC04(rep *Report, rng *Rng, tier string) {
 			ops = append(ops[:at:at], append([]Op{{K: "close", H: 0}}, ops[at:]...)...)
 		}
 		d := CfgDesc{Check: "C04", FileBacked: g.FileBacked, DumpEvery: true, Post: "churn"}
+		switch i % 5 {
+		case 1:
+			// values stored encoded and one byte longer: a snapshot must run the same read hook as the original,
+			// record offsets must follow the stored form; byte totals are those of the stored values (API-level
+			// oracles only: the models do not see this configuration's totals)
+			d.CBSet = cbCodec
+			for j := range ops {
+				if ops[j].K == "tot" {
+					ops[j].K = "len"
+				}
+			}
+		case 3:
+			d.CBSet = cbAllNeutral &^ cbKeyCompare
+		}
 		return d.RunCfg(), ops, d.String()
 	}, nil)
 	modelCompare(rep, "C04")
@@ -518,6 +532,10 @@ func checkC19(rep *Report, rng *Rng, tier string) {
 			}
 		}
 		d := CfgDesc{Check: "C19", FileBacked: true, CmpCB: g.CmpMode == 1, Post: "lazyreads"}
+		if i%3 == 1 {
+			// callbacks that do not change which bytes are read or written: key-only operations must stay key-only
+			d.CBSet = []int{cbAfterRead, cbBeforeWrite | cbAfterRead | cbItemAlloc, cbItemAlloc, cbAfterRead | cbValLength}[r.Intn(4)]
+		}
 		return d.RunCfg(), out, d.String()
 	}, nil)
 	// concurrent key-only rounds (item-load races must not fetch values either)
